@@ -18,6 +18,7 @@
     gb.writeall REG record…          → x<text> | PANIC                WriteSeq for every record
     gb.read REG x<text>              → (record…) REG' OK|ERR | PANIC   GenBankParser until the input is used up
     gb.wrw REG x<text>               → x<text'> REG' | ERR | PANIC     write (under REG') of everything read
+    gb.rt REG record                 → (record…) | ERR | PANIC         read of the written record
     gb.qualifier REG x<prefix> x<in> → (x<name> x<value>) REG' x<rest> | ERR | PANIC   QualifierParser(prefix)
     gb.table REG x<in>               → (F…) REG' x<rest> | ERR | PANIC  INSDCTableParser("")
     gb.tabletext REG F…              → x<text> | PANIC                 INSDCFormatter{table, "     ", 21}
@@ -159,6 +160,15 @@ def evalGenBank (op : String) (args : List Sexp) : Option String :=
         match writeAll reg' rs with
         | .ok b => pure s!"{encBytes b} {encRegistry reg'}"
         | .error _ => pure "PANIC"
+  | "gb.rt", [reg, r] => do
+      let reg ← decRegistry? reg
+      match write reg (← decRecord? r) with
+      | .error _ => pure "PANIC"
+      | .ok t =>
+        match readAll reg t with
+        | none => pure "PANIC"
+        | some (_, _, false) => pure "ERR"
+        | some (rs, _, true) => pure (encList (rs.map encRecord))
   | "gb.qualifier", [reg, pre, t] => do
       match runFresh (qualifier (← decBytes? pre) (← decRegistry? reg)) (← decBytes? t) with
       | .ok (((n, v), reg'), rest) => pure s!"({encBytes n} {encBytes v}) {encRegistry reg'} {encBytes rest}"
